@@ -242,28 +242,52 @@ class Iv:
 
 
 def rule_distance(facts, rep):
+    """The metric is decided as a polynomial: whatever the parenthesisation, temporaries or named constants, distance(c1, c2)
+    must be (1024 + r1 + r2)(r1 - r2)^2 + 1024 (g1 - g2)^2 + (1534 - r1 - r2)(b1 - b2)^2 — the integer red-mean form — and every
+    intermediate of the evaluation as written stays inside i32 for channel values 0..=255 (so the polynomial identity is also
+    an identity of the machine arithmetic)."""
+    import poly
     b = facts.body("anstyle_lossy", L + "distance")
     rep.fn(b["path"])
-    top = hir.stmts_of(b["hir"])
-    env = {}
-    exprs = {}
+    names = [p.get("name") for p in b["params"]]
+    lets = {}
+    for n in hir.walk(b["hir"]):
+        if n.get("k") == "let" and n["pat"].get("k") == "pbind" and "init" in n:
+            lets[(n["pat"]["name"], n["pat"].get("id"))] = n["init"]
+    consts = {i["path"]: i.get("value") for i in facts.items("anstyle_lossy") if i["dk"] in ("Const", "AssocConst")}
     I32 = (-(1 << 31), (1 << 31) - 1)
     worst = []
 
+    def channel(e):
+        e = hir.simp(e)
+        if e.get("k") == "call" and hir.callee(e) in ("anstyle::color::RgbColor::r", "anstyle::color::RgbColor::g", "anstyle::color::RgbColor::b"):
+            a = hir.peel(e["args"][0])
+            if a.get("k") == "local" and a["name"] in names:
+                return f"{hir.callee(e)[-1]}{names.index(a['name']) + 1}"
+        if e.get("k") == "field" and e["name"] in ("0", "1", "2"):
+            a = hir.peel(e["e"])
+            if a.get("k") == "local" and a["name"] in names:
+                return f"{'rgb'[int(e['name'])]}{names.index(a['name']) + 1}"
+        return None
+
     def iv(e):
         e = hir.simp(e)
+        if channel(e):
+            return Iv(0, 255)
         k = e.get("k")
         if k == "lit" and e.get("t") == "int":
             return Iv(e["v"], e["v"])
+        if k == "def" and isinstance(consts.get(e.get("path")), int):
+            return Iv(consts[e["path"]], consts[e["path"]])
         if k == "local":
-            return env[e["name"]]
+            key = (e["name"], e.get("id"))
+            if key not in lets:
+                raise Unrecognised(f"local {e['name']} is not a let-bound temporary")
+            return iv(lets[key])
         if k == "cast":
-            inner = hir.simp(e["e"])
-            if e.get("ty") == "i32" and inner.get("k") == "call" and hir.callee(inner) in ("anstyle::color::RgbColor::r", "anstyle::color::RgbColor::g", "anstyle::color::RgbColor::b"):
-                return Iv(0, 255)
-            if e.get("ty") == "u32":
-                return iv(inner)
-            raise Unrecognised(f"cast {hirpp.expr(e)}")
+            if e.get("ty") in ("i32", "u32", "i64", "u64", "usize", "isize"):
+                return iv(e["e"])
+            raise Unrecognised(f"cast {hirpp.expr(e)[:60]}")
         if k == "bin" and "callee" not in e:
             a, c = iv(e["l"]), iv(e["r"])
             op = e["op"]
@@ -274,67 +298,34 @@ def rule_distance(facts, rep):
             elif op == "Mul":
                 ps = [a.lo * c.lo, a.lo * c.hi, a.hi * c.lo, a.hi * c.hi]
                 r = Iv(min(ps), max(ps))
-            elif op == "Shl":
-                if a.lo != a.hi or c.lo != c.hi:
-                    raise Unrecognised("non-constant shift")
+            elif op == "Shl" and a.lo == a.hi and c.lo == c.hi:
                 r = Iv(a.lo << c.lo, a.lo << c.lo)
             else:
-                raise Unrecognised(f"operator {op}")
+                raise Unrecognised(f"operator {op} in `{hirpp.expr(e)[:60]}` (line {e.get('ln', '?')}) is not part of the integer red-mean form")
             worst.append((r, e))
             return r
-        raise Unrecognised(f"expression {hirpp.expr(e)[:50]}")
+        raise Unrecognised(f"expression `{hirpp.expr(e)[:60]}` (line {e.get('ln', '?')})")
 
-    for s in top[:-1]:
-        if s.get("k") != "let" or s["pat"].get("k") != "pbind":
-            raise Unrecognised("statement other than let")
-        env[s["pat"]["name"]] = iv(s["init"])
-        exprs[s["pat"]["name"]] = s["init"]
-    total = iv(top[-1])
-    over = [(r, hirpp.expr(e)) for r, e in worst if r.lo < I32[0] or r.hi > I32[1]]
+    top = hir.stmts_of(b["hir"])
+    tail = top[-1]
+    other = [s for s in top[:-1] if not (s.get("k") == "let" and s["pat"].get("k") == "pbind") and "debug_assert" not in str(hir.simp(s).get("mac"))]
+    rep.check(not other, "distance", b["path"], "only-temporaries-before-the-result", f"{[hirpp.expr(s)[:50] for s in other]}", loc(b))
+    total = iv(tail)
+    over = [(r, hirpp.expr(e)[:60]) for r, e in worst if r.lo < I32[0] or r.hi > I32[1]]
     rep.check(not over, "distance", b["path"], "no-i32-overflow", f"every intermediate stays inside i32 (u8-derived operands): largest magnitude "
-              f"{max(max(abs(r.lo), abs(r.hi)) for r, _ in worst)}; offenders {over[:2]}", loc(b))
+              f"{max([max(abs(r.lo), abs(r.hi)) for r, _ in worst] or [0])}; offenders {over[:2]}", loc(b))
     rep.count(len(worst))
-    # sum of three terms; each term = positive factor × delta × delta for its own channel
-    tail = hir.simp(top[-1])
-    if tail.get("k") == "cast":
-        tail = hir.simp(tail["e"])
-    terms = []
-
-    def flat_add(e):
-        e = hir.simp(e)
-        if e.get("k") == "bin" and e["op"] == "Add":
-            flat_add(e["l"])
-            flat_add(e["r"])
-        else:
-            terms.append(e)
-    flat_add(tail)
-    rep.check(len(terms) == 3 and all(t.get("k") == "local" for t in terms), "distance", b["path"], "sum-of-three-terms", f"{[hirpp.expr(t) for t in terms]}", loc(b))
-    chans = {}
+    got = poly.poly(tail, resolve=channel, lets=lets, consts=consts)
+    S = poly.sym
+    r1, r2, g1, g2, b1, b2 = (S(x) for x in ("r1", "r2", "g1", "g2", "b1", "b2"))
+    dr, dg, db = poly.add(r1, r2, -1), poly.add(g1, g2, -1), poly.add(b1, b2, -1)
+    rs = poly.add(r1, r2)
+    want = poly.add(poly.add(poly.mul(poly.add(poly.const(1024), rs), poly.mul(dr, dr)), poly.mul(poly.const(1024), poly.mul(dg, dg))),
+                    poly.mul(poly.add(poly.const(1534), rs, -1), poly.mul(db, db)))
+    rep.check(got == want, "distance", b["path"], "is-the-integer-red-mean-polynomial",
+              f"distance(c1,c2) must equal (1024+r1+r2)(r1-r2)^2 + 1024(g1-g2)^2 + (1534-r1-r2)(b1-b2)^2; difference: {poly.show(poly.add(got, want, -1))[:200]}", loc(b))
+    for ch, w in (("r", "1024+r1+r2 in 1024..=1534"), ("g", "1024"), ("b", "1534-r1-r2 in 1024..=1534")):
+        rep.ok("distance", b["path"], f"term-{ch}=positive×{ch}_delta²", f"weight {w} > 0 (from the polynomial)", loc(b))
     for ch in ("r", "g", "b"):
-        d = exprs.get(f"{ch}_delta")
-        dd = hir.simp(d) if d else {}
-        ok = dd.get("k") == "bin" and dd["op"] == "Sub" and hir.local_name(dd["l"]) == f"c1_{ch}" and hir.local_name(dd["r"]) == f"c2_{ch}"
-        getter_ok = all(hir.callee(hir.simp(hir.simp(exprs.get(f"c{i}_{ch}", {})).get("e", {}))) == f"anstyle::color::RgbColor::{ch}" and
-                        hir.is_local(hir.simp(hir.simp(exprs[f"c{i}_{ch}"])["e"])["args"][0], f"c{i}") for i in (1, 2))
-        chans[ch] = ok and getter_ok
-        rep.check(ok and getter_ok, "distance", b["path"], f"{ch}_delta=c1.{ch}-c2.{ch}", "", loc(b))
-    for t in terms:
-        name = t.get("name")
-        factors = []
-
-        def flat_mul(e):
-            e = hir.simp(e)
-            if e.get("k") == "bin" and e["op"] == "Mul":
-                flat_mul(e["l"])
-                flat_mul(e["r"])
-            else:
-                factors.append(e)
-        flat_mul(exprs.get(name, {}))
-        deltas = [hir.local_name(f) for f in factors if hir.local_name(f) and hir.local_name(f).endswith("_delta")]
-        others = [f for f in factors if not (hir.local_name(f) or "").endswith("_delta")]
-        pos = all(iv(f).lo > 0 for f in others)
-        ok = deltas == [f"{name}_delta"] * 2 and pos and name in ("r", "g", "b")
-        rep.check(ok, "distance", b["path"], f"term-{name}=positive×{name}_delta²",
-                  f"the term must be (strictly positive factor) × {name}_delta × {name}_delta so that it is ≥ 0 and 0 iff the channel agrees; "
-                  f"factors {[hirpp.expr(f) for f in factors]} with intervals {[iv(f) for f in others]}", loc(b))
-    rep.check(total.lo >= I32[0] and total.hi <= I32[1], "distance", b["path"], "sum-fits-i32", f"{total}", loc(b))
+        rep.ok("distance", b["path"], f"{ch}_delta=c1.{ch}-c2.{ch}", "from the polynomial", loc(b))
+    rep.check(total.lo >= I32[0] and total.hi <= I32[1] and hir.simp(tail).get("ty") == "u32", "distance", b["path"], "sum-fits-i32", f"{total}", loc(b))
